@@ -67,6 +67,51 @@ impl Pooled for (String, crate::value::IppValue) {
     }
 }
 
+static mut LIST_POOL: Pool<Vec<crate::value::IppValue>> = Pool::new();
+impl Pooled for Vec<crate::value::IppValue> {
+    fn pool() -> &'static mut Pool<Self> {
+        unsafe { &mut *core::ptr::addr_of_mut!(LIST_POOL) }
+    }
+}
+
+/// Model of the `Vec<T>` used as a stack (push / pop / last_mut): the elements live in a typed pool.
+pub struct Stack<T> {
+    idx: [u8; CAP],
+    len: usize,
+    _m: PhantomData<T>,
+}
+
+impl<T: Pooled> Stack<T> {
+    pub fn new() -> Self {
+        Stack {
+            idx: [0; CAP],
+            len: 0,
+            _m: PhantomData,
+        }
+    }
+    pub fn len(&self) -> usize {
+        self.len
+    }
+    pub fn push(&mut self, v: T) {
+        assert!(self.len < CAP, "verif_shim stack capacity exceeded");
+        self.idx[self.len] = T::pool().alloc(v);
+        self.len += 1;
+    }
+    pub fn pop(&mut self) -> Option<T> {
+        if self.len == 0 {
+            return None;
+        }
+        self.len -= 1;
+        T::pool().slots[self.idx[self.len] as usize].take()
+    }
+    pub fn last_mut(&mut self) -> Option<&mut T> {
+        if self.len == 0 {
+            return None;
+        }
+        Some(T::pool().at_mut(self.idx[self.len - 1]))
+    }
+}
+
 static mut ORDER: usize = 0;
 
 /// Select the iteration order of every `HashMap` created by the model: `k` is the index of a
